@@ -22,6 +22,7 @@ TIERS = {
 }
 NUMERIC_NTS = {"NUM": ("<digits>", "<digit>"), "ASSGN": ("<digit>",), "ASSGN2": ("<digit>",)}
 PID = "C03"
+EXTRA_SIG = None      # optional hook (C08): extra signature coordinates computed from (unit, formula, tree)
 
 
 def gen_trees(chk, wd, name, g, depth, nodes, cap):
@@ -131,7 +132,10 @@ def run(chk, units):
                     chk.nontrivial(fid)
             for _, fid, t, exp, e, c in r.tuples("MISMATCH"):
                 u, f = byid[fid]
-                chk.mismatch(sig_for(u, f, exp, e, c),
+                sig = sig_for(u, f, exp, e, c)
+                if EXTRA_SIG is not None:
+                    sig.update(EXTRA_SIG(u, f, u["trees"][t - 1]))
+                chk.mismatch(sig,
                              {"grammar_name": u["name"], "g": u["g"], "formula": f, "tree": u["trees"][t - 1],
                               "string": pj.jyield(u["trees"][t - 1]), "expected": exp, "evaluate": e, "check": c})
         if judged != sum(len(c) for _, c, _ in jobs):
